@@ -369,8 +369,9 @@ func (n *FullNode) Run(parentCtx context.Context) error {
 	}
 
 	// only the first error is propagated
-	// any error is an issue, so blocking is not a problem
-	errCh := make(chan error, 1)
+	// two workers report errors (each at most once, then it returns): one slot for each, so that neither can
+	// block on errCh - and keep Run waiting forever - once Run has stopped listening after a stop request
+	errCh := make(chan error, 2)
 	// prepare to join the go routines later
 	var wg sync.WaitGroup
 	spawnWorker := func(f func()) {
